@@ -161,7 +161,13 @@ impl From<core::time::Duration> for Duration {
 
 impl From<Duration> for core::time::Duration {
     fn from(x: Duration) -> Self {
-        core::time::Duration::new(x.sec as u64, x.nanosec)
+        // A negative duration (e.g. the time until an already overdue event) has no representation
+        // in core::time::Duration: it is treated as zero instead of wrapping around to centuries
+        if x.sec < 0 {
+            core::time::Duration::ZERO
+        } else {
+            core::time::Duration::new(x.sec as u64, x.nanosec)
+        }
     }
 }
 
